@@ -212,6 +212,14 @@ class Epoch:
                 for ch in sl['chains']:
                     ch.force(sorted(act['T']), recompute=act['rec'], delete_data=act['del'])
             return out
+        if name == 'MultiForceObj':
+            objs = [self.task(sl['chains'][0], n) for n in sorted(act['T'])]
+            if sl['mc'] is not None and len(sl['mc'].chains) == len(sl['chains']):
+                sl['mc'].force(objs if len(objs) > 1 or self.stepno % 2 else objs[0], recompute=act['rec'], delete_data=act['del'])
+            else:
+                for ch in sl['chains']:
+                    ch.force(objs, recompute=act['rec'], delete_data=act['del'])
+            return out
         if name == 'Inspect':
             for ch in sl['chains']:
                 _ = ch.tasks_df
@@ -271,7 +279,7 @@ class Epoch:
         if self.opts.get('gens'):
             for dd in (exp_runs[:-1] if exp['lasterr'] else exp_runs):
                 self.genof[dd] = self.stepno
-        unordered = act['name'] in ('ChainForce', 'MultiForce')
+        unordered = act['name'] in ('ChainForce', 'MultiForce', 'MultiForceObj')
         if (sorted(real_runs) != sorted(exp_runs)) if unordered else (real_runs != exp_runs):
             mm.append(('runs', f"run invocations {[m.slug(d) + '#' + str(d) for d in real_runs]} but the spec "
                                f"requires {[m.slug(d) + '#' + str(d) for d in exp_runs]} after {act['name']}"))
